@@ -115,6 +115,22 @@ def r_C12b(root):
             n_ok += 1
         except pyeval.Unsupported as e: raise AnalysisError("fixed-name round trip: outside the evaluated subset: %s" % e)
         except pyeval.Raised as e: bad = (w, "printing raises %s" % e.cls); break
+    # the grammar visitor (textx/lang.py) reads the literals of RREL expressions written in a grammar; where it defines
+    # visit_string_value itself it must read every literal as the standalone RREL parser does
+    lt = load(root, L); tv = next((c for c in lt.body if isinstance(c, ast.ClassDef) and c.name == "TextXVisitor"), None)
+    own = next((f for f in tv.body if isinstance(f, ast.FunctionDef) and f.name == "visit_string_value"), None) if tv is not None else None
+    bad2 = None
+    if own is not None:
+        fns_l = {k_: v_ for k_, v_ in helper_functions(root, L, "TextXVisitor.visit_string_value").items() if not k_.startswith("__") and not k_.startswith("visit_")}
+        for w in words:
+            try: a_ = visit(w); b_ = pyeval.run_block(own.body, {"__functions__": fns_l, "__module__": lt, "node.value": w, "node": {".value": w, ".kind": "node"}, "children": [], "self": {".kind": "visitor"}})
+            except pyeval.Unsupported as e: raise AnalysisError("TextXVisitor.visit_string_value: outside the evaluated subset: %s" % e)
+            except pyeval.Raised as e: bad2 = (w, "raises %s" % e.cls); break
+            if a_ != b_: bad2 = (w, "is read as %r by the grammar visitor and as %r by the RREL parser" % (b_, a_)); break
+    inst += 1
+    for pr in ("C32", "C12"): ob(pr, "C12.e", L, "TextXVisitor.visit_string_value / RRELVisitor.visit_string_value", "both visitors read every string literal alike (%d literals)" % len(words), bad2 is None)
+    if bad2:
+        for pr in ("C32", "C12"): out.append(Finding(pr, "C12.e", L, "TextXVisitor.visit_string_value", "string literal %s" % bad2[0], "the literal %s %s: an RREL expression written in a grammar and the same expression registered as a string select different objects" % bad2, witness="ref=[T|ID|'a\\'b'~items] in the grammar vs. rrel.parse of the same text"))
     inst += len(words)
     ob("C12", "C12.e", R, "RRELVisitor.visit_string_value / RRELNavigation.__repr__", "fixed names round-trip for %d of %d literals up to length 5" % (n_ok, len(words)), bad is None)
     if bad: out.append(Finding("C12", "C12.e", R, "RRELNavigation.__repr__", "fixed-name literal %s" % bad[0], bad[1] + ": the printed expression does not re-parse to an equivalent expression", witness="%s~a" % bad[0]))
